@@ -42,6 +42,74 @@ def model_value(model, var):
     raise ValueError(f"unsupported model value {v}")
 
 
+def _num_eval(t, memo):
+    """Numeric value (float / bool) of a ground z3 term that may contain the uninterpreted SQ, SQRT, EXP; raises if it is not ground."""
+    import math
+    key = t.get_id()
+    if key in memo:
+        return memo[key]
+    if z3.is_rational_value(t) or z3.is_int_value(t):
+        r = float(t.as_fraction()) if z3.is_rational_value(t) else float(t.as_long())
+    elif z3.is_algebraic_value(t):
+        r = float(t.approx(20).as_fraction())
+    elif z3.is_true(t):
+        r = True
+    elif z3.is_false(t):
+        r = False
+    elif z3.is_app(t) and t.num_args() > 0:
+        k = t.decl().kind()
+        a = [_num_eval(c, memo) for c in t.children()]
+        name = t.decl().name()
+        if k == z3.Z3_OP_ADD:
+            r = sum(a)
+        elif k == z3.Z3_OP_SUB:
+            r = a[0] - sum(a[1:])
+        elif k == z3.Z3_OP_UMINUS:
+            r = -a[0]
+        elif k == z3.Z3_OP_MUL:
+            r = 1.0
+            for x in a:
+                r *= x
+        elif k == z3.Z3_OP_DIV:
+            r = a[0] / a[1]
+        elif k == z3.Z3_OP_ITE:
+            r = a[1] if a[0] else a[2]
+        elif k == z3.Z3_OP_LE:
+            r = a[0] <= a[1]
+        elif k == z3.Z3_OP_LT:
+            r = a[0] < a[1]
+        elif k == z3.Z3_OP_GE:
+            r = a[0] >= a[1]
+        elif k == z3.Z3_OP_GT:
+            r = a[0] > a[1]
+        elif k == z3.Z3_OP_EQ:
+            r = a[0] == a[1]
+        elif k == z3.Z3_OP_DISTINCT:
+            r = len(set(a)) == len(a)
+        elif k == z3.Z3_OP_AND:
+            r = all(a)
+        elif k == z3.Z3_OP_OR:
+            r = any(a)
+        elif k == z3.Z3_OP_NOT:
+            r = not a[0]
+        elif k == z3.Z3_OP_IMPLIES:
+            r = (not a[0]) or a[1]
+        elif k == z3.Z3_OP_TO_REAL:
+            r = a[0]
+        elif k == z3.Z3_OP_UNINTERPRETED and name == "SQ":
+            r = a[0] * a[0]
+        elif k == z3.Z3_OP_UNINTERPRETED and name == "SQRT":
+            r = math.sqrt(a[0])
+        elif k == z3.Z3_OP_UNINTERPRETED and name == "EXP":
+            r = math.exp(a[0])
+        else:
+            raise ValueError(f"cannot evaluate {t.decl()}")
+    else:
+        raise ValueError("not ground")
+    memo[key] = r
+    return r
+
+
 class Obligation:
     __slots__ = ("name", "status", "model", "path", "info", "slack_model")
 
@@ -250,7 +318,14 @@ class Engine:
             return True
         if z3.is_false(t):
             return False
-        return None
+        # uninterpreted SQ / SQRT / EXP applications survive the substitution: evaluate them with the true functions, numerically.  This
+        # only chooses a DIRECTION for the guided path (the literal taken is recorded in the path condition as usual), so the rounding
+        # of the numeric evaluation cannot make a verdict unsound - at worst the guided path turns out infeasible
+        try:
+            v = _num_eval(t, {})
+        except Exception:  # noqa: BLE001
+            return None
+        return v if isinstance(v, bool) else None
 
     def _sync(self):
         if self._pending:
